@@ -153,6 +153,13 @@ func (w *World) run(op *Op) (interface{}, error) {
 	case "I":
 		return tensor.I(dtOf(op.S), op.I[0], op.I[1], op.I[2]), nil
 	case "Drop":
+		// The program forgets the tensor; the harness keeps it reachable until the world is discarded. A view
+		// records its parent as a bare uintptr (Dense.viewOf), which the library converts back to a pointer in
+		// reuseCheckShape: once the parent is collected that is a dangling pointer, and the Go runtime aborts the
+		// whole process with "found bad pointer in Go heap" when it meets it (seen once in 10^7 programs).
+		if t := w.get(op.In[0]); t != nil {
+			w.graveyard = append(w.graveyard, t)
+		}
 		w.set(op.In[0], nil)
 		return nil, nil
 
